@@ -342,6 +342,28 @@ add('C18',
     "mismatch with cli.rst of the tree under test is a harness error). "
     "Real runs use max_workers=1 (pools are C11's subject).")
 
+add('C11',
+    "Hypothesis over worker count x execution mode x forced completion "
+    "order x operation; schedule control by a checker-side wrapper around "
+    "the worker task function (forked workers inherit it) that holds each "
+    "result back until its turn in the drawn permutation; oracle: "
+    "bit-identity with the sequential run and with per-task references",
+    "Exploration of schedules: surveys of 2-3 sources x 2-3 frequencies "
+    "are computed with max_workers 1..16, in memory or file based, with "
+    "tqdm's process_map or the plain ProcessPoolExecutor path, for compute "
+    "(+ repeated compute), gradient (forward + back-propagation) and jvec, "
+    "while the completion order of the tasks is forced to a drawn "
+    "permutation (reversed, rotated, interleaved, random); every efield, "
+    "synthetic, bfield and jvec slot, misfit and gradient must be "
+    "bit-identical to the sequential run AND to a solve executed per task "
+    "by the checker, so a slot filled from the wrong task is visible even "
+    "if all modes agree with each other.",
+    "Trusted: single-task simulations / solve_source as references. "
+    "Completion orders are forced (bounded holds), not enumerated; a hold "
+    "that times out only lowers distinct_nontrivial (logged order != "
+    "submission order and >= 2 worker pids), it cannot raise an alarm. "
+    "Worker crashes and the layered path are not covered.")
+
 NOT_BUILT = "check not built yet (see DESIGN.md section 3 for the plan)"
 
 
